@@ -193,7 +193,16 @@ def h_seq(ctx, plan):
     split.append(kind in ('unknown_type', 'long_stats') and i % 2 == 0)
   # ---- feed the bytes, one message per push (segmentation in general is C02's subject); requests that are rejected from their header alone
   # also arrive in two TCP segments (5 bytes, then the rest): still exactly one error
-  for b, two in zip(stream, split):
+  # ... and a controller may pipeline: the whole sequence in one TCP segment (solver-chosen) gets the very same answers
+  if bool(ctx.bool('one_segment')):
+    ctx.witness('pipelined')
+    whole = stream[0]
+    for b in stream[1:]: whole = whole + b
+    w._push_receive_data(whole)
+    stream_fed = []
+  else:
+    stream_fed = list(zip(stream, split))
+  for b, two in stream_fed:
     if two:
       w._push_receive_data(b[:5]); w._push_receive_data(b[5:])
     else:
@@ -272,5 +281,5 @@ def obligations(tier):
                       symbolic="xids (aliasing allowed), port numbers, queue ids, table ids, stats type, vendor id, flow_mod command, buffer id, config values")
   return [Obligation('O2_full_table', h_full_table, [dict(cap=c) for c in (1, 2)], witnesses=('done',), max_decisions=20000,
                      desc='flow table at capacity: replacing ADD is silent, an ADD too many gets ALL_TABLES_FULL, barrier and statistics replies reflect it'),
-          Obligation('O1_sequences', h_seq, [dict(plan=p) for p in ps], witnesses=('done',), max_decisions=20000,
+          Obligation('O1_sequences', h_seq, [dict(plan=p) for p in ps], witnesses=('done', 'pipelined'), max_decisions=20000,
                      desc='request sequences through the byte-level connection: one reply/error per request, in order, with xid and specified content')]
